@@ -1,20 +1,28 @@
 ------------------------------ MODULE BearerMon ------------------------------
 (* Monitor for C14: evaluates Bearer!Holds (verdict) and equality with        *)
 (* Bearer!Expected (strict / drift) on outcomes of the real middleware.       *)
+(* One line = one abstract case, concretised once and presented twice to one  *)
+(* middleware instance (o1, o2: the verifier hands out the same cached        *)
+(* TokenInfo both times); the property speaks about every request.            *)
 EXTENDS VerifTrace, FiniteSets
 B == INSTANCE BearerDefs
 
 VARIABLE l
 MInit == l = 1 /\ MarkInit
-Case(e) == [hdr |-> e.c.hdr, ver |-> e.c.ver, req |-> AsSet(e.c.req), granted |-> AsSet(e.c.granted), dup |-> e.c.dup, exp |-> e.c.exp,
-            skew |-> e.c.skew, allow |-> e.c.allow, url |-> e.c.url, opts |-> e.c.opts]
-Out(e) == [status |-> e.o.status, ran |-> e.o.ran, sameInfo |-> e.o.sameInfo, chal |-> e.o.chal,
-           chalUrl |-> e.o.chalUrl, chalScope |-> e.o.chalScope]
+Case(e) == [hdr |-> e.c.hdr, ver |-> e.c.ver, req |-> AsSet(e.c.req), rform |-> e.c.rform, granted |-> AsSet(e.c.granted), gform |-> e.c.gform,
+            exp |-> e.c.exp, skew |-> e.c.skew, allow |-> e.c.allow, url |-> e.c.url, opts |-> e.c.opts]
+Out(o) == [status |-> o.status, ran |-> o.ran, sameInfo |-> o.sameInfo, chal |-> o.chal,
+           chalUrl |-> o.chalUrl, chalScope |-> o.chalScope]
+Judge(c, o, sfx) ==
+  /\ Check(l, "Holds" \o sfx, B!Holds(c, Out(o)))
+  \* the verifier is asked about a credential the request presents
+  /\ Check(l, "TokenPassed" \o sfx, o.verCalled => o.tokenOk)
+  /\ Check(l, "drift" \o sfx, Out(o) = B!Expected(c) /\ (o.verCalled <=> B!CodeValid(c.hdr)))
 MNext == /\ l <= NLines /\ l' = l + 1
-         /\ LET e == TraceLog[l] IN
-              /\ Check(l, "Holds", B!Holds(Case(e), Out(e)))
-              /\ Check(l, "TokenPassed", e.o.verCalled => e.o.tokenOk)
-              /\ Check(l, "drift", Out(e) = B!Expected(Case(e)) /\ (e.o.verCalled <=> B!ValidSyntax(e.c.hdr)))
+         /\ LET e == TraceLog[l]
+                c == Case(e) IN
+              /\ Judge(c, e.o1, "")
+              /\ Judge(c, e.o2, "#2")
 MSpec == MInit /\ [][MNext]_l
 MMark == MarkAt(l)
 MAccepted == Accepted
